@@ -207,3 +207,32 @@ check(
     level_note="trusted: gcc TSan's happens-before model; only interleavings whose conflicting accesses both executed are visible",
     assumptions=["schedules are those produced by the kernel plus the optional yield points between transform phases"],
 )
+
+check(
+    "C10",
+    runs=[dict(harness="C10_cache", flavour="plain"),
+          dict(harness="C10_cache", flavour="cache1", opts={"mode": "histories"}),
+          dict(harness="C10_cache", flavour="cache2", opts={"mode": "histories"}),
+          dict(harness="C10_cache", flavour="cache1", opts={"mode": "random"}, shards=4),
+          dict(harness="C10_cache", flavour="cache2", opts={"mode": "random"}, shards=4),
+          dict(harness="C10_cache", flavour="asan", opts={"mode": "random"}, shards=4)],
+    rule=("every request sequence of length <= 7 (quick, plus 2000 seeded length-8 ones) / <= 8 (thorough) over an alphabet of 6 lengths "
+          "(16, 12, 45, 15, 43, 60|90: power of two, composites sharing prime sub-plans, prime > 41 whose Bluestein plan itself requests a "
+          "power-of-two plan), separately for the complex (fft) and the real (rfft) cache, each history in a fresh thread: every result must "
+          "equal the result of the same call in a fresh thread (1e-12 rel.), plan objects taken during the history must still be right at "
+          "its end, and after every request the hooked key list of both caches must equal a reference LRU of the configured capacity driven "
+          "by the observed get/put trace (size <= K, requested length at the MRU position). LRUCache<int,int>(K=1..4): all put/get/exists "
+          "sequences of length 5 (quick) / 6 (thorough) over 6 keys against the same reference. Random histories of 2000 / 10000 requests "
+          "over 40 lengths with up to 15 long-lived plans. Library builds with cache size 4 (default), 1 and 2; the random part also under "
+          "ASan. non-trivial = history that evicts at least once; distinct = (cache kind, capacity, sequence code)."),
+    exhaustive_subspaces={"quick": ["all histories of length <= 7 over 6 lengths, complex and real cache, capacities 1, 2 and 4", "all LRUCache op sequences of length 5 over 6 keys, K=1..4"],
+                          "thorough": ["all histories of length <= 8 over 6 lengths, complex and real cache, capacities 1, 2 and 4", "all LRUCache op sequences of length 6 over 6 keys, K=1..4"]},
+    min_distinct={"quick": 50000, "thorough": 1000000},
+    min_obs={"quick": {"histories_with_eviction": 10000, "held_plan_checks": 500}, "thorough": {"histories_with_eviction": 100000, "held_plan_checks": 5000}},
+    technique="runtime monitor: lock-step reference LRU over a hooked get/put trace + differential check of every result against a fresh-thread execution, exhaustive short histories",
+    level_text=("All short request histories are executed in fresh threads on three cache-size builds; an executable LRU model consumes the "
+                "hooked trace in lock-step and must agree with the hooked cache contents after every request, and every result must equal "
+                "the fresh-thread result. Held on the histories counted in the evidence."),
+    level_note="trusted: the read-only DSPLIB_VERIF observer (keys(), trace) reports the cache faithfully; the 20-line reference LRU",
+    assumptions=["the model consumes the observed trace (it does not re-derive which sub-plans a length needs), so planner refactorings do not alarm while cache-policy changes do"],
+)
